@@ -189,12 +189,14 @@ type Sched struct {
 	log    []string
 	logObj Obj
 
-	trace        bool
-	entries      []TraceEntry
-	leaks        []string
-	crash        string
-	mainReturned bool
-	mainClock    int64
+	trace         bool
+	entries       []TraceEntry
+	leaks         []string
+	pendingTimers []string
+	crash         string
+	mainReturned  bool
+	draining      bool
+	mainClock     int64
 }
 
 // S is the execution currently running in this process (one at a time).
@@ -322,6 +324,17 @@ func (s *Sched) enabledThreads(from *Thread) []*Thread {
 	return out
 }
 
+// earlyTimer reports whether the earliest pending timer is close enough to be
+// fired early ("this thread was slow"): within EarlyWindow of the clock.
+func (s *Sched) earlyTimer() bool {
+	for _, tm := range s.timers {
+		if tm.active && tm.deadline-s.clock <= s.ex.EarlyWindow {
+			return true
+		}
+	}
+	return false
+}
+
 func (s *Sched) hasTimer() bool {
 	for _, tm := range s.timers {
 		if tm.active {
@@ -363,20 +376,34 @@ func (s *Sched) schedule(from *Thread) {
 			return
 		}
 		en := s.enabledThreads(from)
+		if s.draining {
+			if len(en) == 0 {
+				s.leaks = s.liveThreads()
+				for _, tm := range s.timers {
+					if tm.active {
+						s.pendingTimers = append(s.pendingTimers, tm.name)
+					}
+				}
+				s.endFrom(StOK, from, "")
+				return
+			}
+			s.handoff(from, en[0])
+			return
+		}
 		canAdv := s.hasTimer()
 		if len(en) == 0 {
 			if !canAdv {
 				s.endFrom(StDeadlock, from, s.describeBlocked())
 				return
 			}
-			if !s.advance(from) {
+			if !s.advance(from, false) {
 				return
 			}
 			continue
 		}
 		n := len(en)
 		nAlt := n
-		if canAdv {
+		if canAdv && s.earlyTimer() {
 			nAlt++
 		}
 		pick := 0
@@ -393,24 +420,27 @@ func (s *Sched) schedule(from *Thread) {
 			}
 		}
 		if pick == n { // early clock advance
-			if !s.advance(from) {
+			if !s.advance(from, true) {
 				return
 			}
 			continue
 		}
-		to := en[pick]
-		if to == from {
-			return
-		}
-		s.cur = to
-		to.wake <- struct{}{}
-		if from != nil && !from.done {
-			<-from.wake
-			if from.killed {
-				runtime.Goexit()
-			}
-		}
+		s.handoff(from, en[pick])
 		return
+	}
+}
+
+func (s *Sched) handoff(from, to *Thread) {
+	if to == from {
+		return
+	}
+	s.cur = to
+	to.wake <- struct{}{}
+	if from != nil && !from.done {
+		<-from.wake
+		if from.killed {
+			runtime.Goexit()
+		}
 	}
 }
 
@@ -497,7 +527,7 @@ func (s *Sched) stateKey() key {
 // advance moves the clock to the earliest deadline and fires one timer due
 // then (the order among same-instant timers is a free choice). Returns false
 // if the execution ended (horizon).
-func (s *Sched) advance(from *Thread) bool {
+func (s *Sched) advance(from *Thread, early bool) bool {
 	var due []*timer
 	var min int64
 	first := true
@@ -516,7 +546,7 @@ func (s *Sched) advance(from *Thread) bool {
 	if min > s.clock {
 		s.clock = min
 	}
-	if s.clock > s.ex.Horizon && !s.mainReturned {
+	if !early && s.clock > s.ex.Horizon && !s.mainReturned {
 		s.endFrom(StHorizon, from, s.describeBlocked())
 		return false
 	}
@@ -658,12 +688,11 @@ func (s *Sched) threadMain(t *Thread, f func()) {
 			return
 		}
 		if t.isMain {
+			// main returned: let the other threads run (default choices, clock
+			// frozen) until nothing is enabled; whoever is alive then is a leak
 			s.mainReturned = true
 			s.mainClock = s.clock
-			s.leaks = s.liveThreads()
-			s.beginEnd(StOK, t)
-			s.ack <- struct{}{}
-			return
+			s.draining = true
 		}
 		t.done = true
 		s.schedule(nil)
